@@ -104,12 +104,16 @@ def gen_program(rng, clock=None, n_events=None, with_bad=True, with_cancel=True,
     return prog
 
 
-def add_stats(rng, prog, kinds=("counter", "tally", "wtally", "persistent"), watch=True, density=0.7):
+def add_stats(rng, prog, kinds=("counter", "tally", "wtally", "persistent"), watch=True, density=0.7, baseline=False):
     """statistics created in construct_model + observation actions sprinkled over init and handlers"""
     specs = []
     for k, kind in enumerate(rng.sample(list(kinds), rng.randint(1, len(kinds)))):
         specs.append({"key": f"{kind}{k}", "kind": kind, "via": rng.choice(["register", "event"]), "watch": watch})
     prog["stats"] = specs
+    if baseline:
+        for sp in specs:
+            if rng.random() < 0.35:
+                sp["baseline"] = {"counter": [2], "tally": [1.5], "wtally": [1.0, 4.0], "persistent": [3.0]}[sp["kind"]]
 
     def obs():
         sp = rng.choice(specs)
@@ -210,5 +214,9 @@ def add_simlisteners(rng, prog, types=("WARMUP_EVENT", "TIME_CHANGED_EVENT")):
         if t != "TIME_CHANGED_EVENT" and rng.random() < 0.5:
             script.append(["schedrel", rng.choice(["s1", "s2"]), rng.choice([1, 5, 9])])
         ls.append({"name": f"SL{k}", "type": t, "script": script})
+    if "TIME_CHANGED_EVENT" not in types and rng.random() < 0.6:
+        # a listener that only looks at the clock whenever the time changes (no draws: how many TIME_CHANGED
+        # notifications a run produces depends on its segmentation into bounded chunks by design)
+        ls.append({"name": "TC", "type": "TIME_CHANGED_EVENT", "script": [["clock"]]})
     prog["simlisteners"] = ls
     return prog
